@@ -358,6 +358,109 @@ func execHeap(ops []opDef) func([]int) seqx.Result {
 	}
 }
 
+// heapShapes covers heap layouts the 3-4 id BFS cannot reach: for every n <= 7 and EVERY
+// insertion order of n distinct expiries (every permutation = every reachable array layout of
+// that size), remove each single element, then check the minimum, a SetMin at every
+// threshold, membership, and that popping yields the remaining elements in ascending order.
+func heapShapes(r *evid.Run) int {
+	cases := 0
+	maxN := evid.Pick(r, 7, 8)
+	for n := 1; n <= maxN; n++ {
+		perm := make([]int, n)
+		for i := range perm {
+			perm[i] = i
+		}
+		var rec func(k int)
+		check := func() {
+			for rm := -1; rm < n; rm++ { // -1: no removal
+				for thr := 0; thr <= n; thr++ {
+					cases++
+					eh := eheap.New[*item](0)
+					for _, e := range perm {
+						eh.Add(&item{id: ids.ID{byte(e + 1), 0x77}, exp: int64(e + 1)})
+					}
+					remaining := map[int]bool{}
+					for e := 0; e < n; e++ {
+						remaining[e] = true
+					}
+					if rm >= 0 {
+						if _, ok := eh.Remove(ids.ID{byte(rm + 1), 0x77}); !ok {
+							r.Violation("C25:heap-shape:remove-missing", fmt.Sprintf("insertion order %v: Remove(%d) reports missing", perm, rm+1), map[string]any{"order": perm, "remove": rm + 1})
+							return
+						}
+						delete(remaining, rm)
+					}
+					rep := map[string]any{"order": append([]int{}, perm...), "remove": rm + 1, "setmin": thr + 1}
+					if rm >= 0 && eh.Has(ids.ID{byte(rm + 1), 0x77}) {
+						r.Violation("C25:heap-shape:removed-still-member", fmt.Sprintf("insertion order %v remove %d: still a member", perm, rm+1), rep)
+						return
+					}
+					got := eh.SetMin(int64(thr + 1))
+					var want []int
+					for e := 0; e < n; e++ {
+						if remaining[e] && e+1 < thr+1 {
+							want = append(want, e+1)
+							delete(remaining, e)
+						}
+					}
+					var gotE []int
+					for _, it := range got {
+						gotE = append(gotE, int(it.exp))
+					}
+					sort.Ints(gotE)
+					if fmt.Sprint(gotE) != fmt.Sprint(want) {
+						r.Violation("C25:heap-shape:setmin-wrong", fmt.Sprintf("expiries inserted in order %v, removed %d, SetMin(%d) returned %v, expected %v", plus1(perm), rm+1, thr+1, gotE, want), rep)
+						return
+					}
+					var popped []int
+					for {
+						it, ok := eh.PopMin()
+						if !ok {
+							break
+						}
+						popped = append(popped, int(it.exp))
+					}
+					var rest []int
+					for e := 0; e < n; e++ {
+						if remaining[e] {
+							rest = append(rest, e+1)
+						}
+					}
+					if fmt.Sprint(popped) != fmt.Sprint(rest) {
+						r.Violation("C25:heap-shape:pop-order-wrong", fmt.Sprintf("expiries inserted in order %v, removed %d, SetMin(%d): popping yields %v, expected %v", plus1(perm), rm+1, thr+1, popped, rest), rep)
+						return
+					}
+				}
+			}
+		}
+		rec = func(k int) {
+			if k == n {
+				check()
+				return
+			}
+			for i := k; i < n; i++ {
+				perm[k], perm[i] = perm[i], perm[k]
+				rec(k + 1)
+				perm[k], perm[i] = perm[i], perm[k]
+			}
+		}
+		rec(0)
+		if r.Expired() {
+			r.Cap("heap shapes: deadline reached")
+			break
+		}
+	}
+	return cases
+}
+
+func plus1(p []int) []int {
+	o := make([]int, len(p))
+	for i, x := range p {
+		o[i] = x + 1
+	}
+	return o
+}
+
 func main() {
 	r := evid.Start("C25", "model_checking")
 	depth := evid.Pick(r, 6, 12)
@@ -399,12 +502,14 @@ func main() {
 		}
 		per[s.name] = map[string]any{"states": st.States, "transitions": st.Transitions, "depth": s.depth, "ops": len(ops)}
 	}
+	shapeCases := heapShapes(r)
+	r.Cov["heap_shape_cases"] = shapeCases
 	r.Cov["states"] = states
 	r.Cov["transitions"] = trans
 	r.Cov["traces_validated_against_impl"] = trans
 	r.Cov["distinct_outcomes"] = len(outcomes)
 	r.Cov["per_structure"] = per
-	r.Cov["explanation"] = "BFS over add/remove/set-min/pop histories on the real EMap, ExpiryHeap and Heap; membership, minimum, length and returned sets compared with a map reference in every state"
+	r.Cov["explanation"] = "BFS over add/remove/set-min/pop histories on the real EMap, ExpiryHeap and Heap; membership, minimum, length and returned sets compared with a map reference in every state; plus a complete grid over heap layouts: every insertion order of n <= 7 (thorough 8) distinct expiries x every single removal x every SetMin threshold, then pop order"
 	r.Assumptions = []string{fmt.Sprintf("%d ids, expiries 0..%d, set-min 0..%d", nIDs, maxExp, maxExp+1), "EMap: entries with expiry 0 are never tracked (as the statement scopes)"}
 	r.Finish()
 }
